@@ -11,8 +11,7 @@ name: expand_bounds
 define: VERIF_EXPAND_ANNOT, VERIF_EXPAND_PSTUBS, VERIF_OWN_STRLEN, VERIF_OWN_STRCMP, U_PAD=0
 src: conf.c
 enforce: spifconf_shell_expand
-replace: builtin_exec
-giflags: --restrict-function-pointer spifconf_shell_expand.function_pointer_call.1/vb_any
+giflags: --replace-calls builtin_exec:vb_any --restrict-function-pointer spifconf_shell_expand.function_pointer_call.1/vb_any
 backend: sat
 loops: 1
 timeout: 600
@@ -55,9 +54,10 @@ spif_bool_t spiftool_safe_strncpy(spif_charptr_t dest, const spif_charptr_t src,
  * that every registered pointer is vb_any: an abstract built-in that stands for all seven real ones and for
  * user-registered ones.  It returns NULL or a fresh heap string of exactly vg_sl2 characters (registered with
  * the strlen stub) whose byte at the ghost index vg_q is not vg_fb, and may change the variable store.
- * builtin_exec (called directly for back-quotes) is represented by a declared contract with the same
- * postcondition. */
-static spif_charptr_t vb_any(spif_charptr_t param)
+ * builtin_exec (called directly for back-quotes) is represented by the same model (goto-instrument
+ * --replace-calls builtin_exec:vb_any; a declared contract with this postcondition costs cbmc 60 s of
+ * symbolic execution per call site, the executable model nothing). */
+spif_charptr_t vb_any(spif_charptr_t param)
 {
     spifconf_vars = nondet_ptr();
     if (nondet_bool()) return (spif_charptr_t) NULL;
@@ -70,15 +70,6 @@ static spif_charptr_t vb_any(spif_charptr_t param)
     vg_so2 = r; vg_sl2 = n;
     return r;
 }
-static spif_charptr_t builtin_exec(spif_charptr_t param)
-__CPROVER_assigns(vg_so2, vg_sl2)
-__CPROVER_ensures(__CPROVER_return_value == NULL ||
-                  (vg_sl2 <= VCAP && __CPROVER_is_fresh(__CPROVER_return_value, vg_sl2 + 1) &&
-                   __CPROVER_return_value[vg_sl2] == 0 && (vg_sl2 == 0 || __CPROVER_return_value[0] != 0) &&
-                   (!(vg_q < vg_sl2) || __CPROVER_return_value[vg_q] != vg_fb) &&
-                   vg_so2 == __CPROVER_return_value))
-;
-
 /* ---- the function under proof ---------------------------------------------------------------------- */
 /* the built-in table: 0..2 registered entries with heap names (registered lengths), then the NULL name */
 #define BLT_OK (__CPROVER_is_fresh(builtins, sizeof(spifconf_func_t) * 3) && builtin_idx <= 2 && \
